@@ -22,7 +22,8 @@ func genConfig(t *rapid.T, hooked bool) config {
 	case cls < 19:
 		c.TimeoutUS = rapid.IntRange(2000, 5000).Draw(t, "timeoutUS")
 	default:
-		c.TimeoutUS = 20000
+		// a long time-out, or none at all: zero and negative time-outs are legal option values (the batch is written at once)
+		c.TimeoutUS = rapid.SampledFrom([]int{20000, 20000, 0, -500}).Draw(t, "timeoutEdge")
 	}
 
 	return c
@@ -116,7 +117,7 @@ func runCase(t *rapid.T, check string, p program) {
 	}
 }
 
-const ruleFree = "rapid draws queue size {0,1,2,3,4,8}, batch size 1..6, batch time-out 0.2..20 ms, 1..8 objects, 1..4 producers x 1..9 steps (bump object version + Enqueue, Gosched, sleep, Flush), in a third of the programs 1..2 objects whose first BatchWrite / BatchWriteDone call-back enqueues another object from the writer goroutine (queue then holds every object); even versions are written as Delete+Set, an optional Stop before anything, the instant of the main StopBatchWriter (after the k-th Enqueue returned, k=1 often, or after all producers), an optional second Stop (concurrent / afterwards). Goroutines run free; every Enqueue/Stop/BatchWrite/Commit/BatchWriteDone is stamped with a logical clock and the history invariants of C08 are judged. Non-trivial = Stop was invoked while at least one accepted object had not been written yet (a BatchWrite happened after Stop's invocation)"
+const ruleFree = "rapid draws queue size {0,1,2,3,4,8}, batch size 1..6, batch time-out 0.2..20 ms (rarely 0 or negative), 1..8 objects, 1..4 producers x 1..9 steps (bump object version + Enqueue, Gosched, sleep, Flush), in a third of the programs 1..2 objects whose first BatchWrite / BatchWriteDone call-back enqueues another object from the writer goroutine (queue then holds every object); even versions are written as Delete+Set, an optional Stop before anything, the instant of the main StopBatchWriter (after the k-th Enqueue returned, k=1 often, or after all producers), an optional second Stop (concurrent / afterwards). Goroutines run free; every Enqueue/Stop/BatchWrite/Commit/BatchWriteDone is stamped with a logical clock and the history invariants of C08 are judged. Non-trivial = Stop was invoked while at least one accepted object had not been written yet (a BatchWrite happened after Stop's invocation)"
 
 func TestBatchedWriterPrograms(t *testing.T) {
 	const check = "batchedwriter_programs"
